@@ -139,11 +139,29 @@ def run(ctx):
                           "%s derived from the parent's %s (reads %s)" % (fld, sorted(spec["need"]), sorted(fs & {"bin_name", "usage_name", "display_name", "name"})),
                           "%s computes a subcommand's %s from the parent's %s instead of %s: the per-parse twin and the build() twin disagree" % (
                               fn_b.q.rsplit("::", 1)[1], fld, sorted(fs & {"bin_name", "usage_name", "display_name"}), sorted(spec["need"])))
-    # _build_subcommand assigns usage_name and bin_name on every path that returns Some
+    # _build_subcommand assigns usage_name and bin_name on every returning path, except the one where the
+    # subcommand does not exist (None arm of the lookup)
     for fld in ("usage_name", "bin_name"):
         ws = writes_field(bsc, fld)
-        somes = [i for i, j, s in bsc.stmts() if s["k"] == "assign" and s["place"] == 0 and s["rv"]["k"] == "agg" and s["rv"].get("variant") == "Some"]
-        ok = bool(ws) and bool(somes) and not bsc.must_pass([i for i, s in ws], to=somes)
-        res.check(ok, "R11.4", "names-every-parse|" + fld, bsc.where(), "%s recomputed on every successful _build_subcommand" % fld,
-                  "_build_subcommand can return the subcommand without (re)computing %s: names depend on which calls happened before" % fld)
+        wb = tuple(i for i, s in ws)
+        # the only way around the writes is the "no such subcommand" edge of the lookup
+        none_edges = []
+        for (sbb, pl, ty, targets, otherwise) in bsc.discr_switches():
+            if re.search(r"(find|branch)\(.*subcommands", expr(bsc, pl)):
+                tgt = targets.get(0) if "Option" in ty else targets.get(1, otherwise) if "ControlFlow" in ty else None
+                if tgt is not None:
+                    none_edges.append((sbb, tgt))
+        bad = []
+        seen = {0}
+        work = [0]
+        while work:
+            x = work.pop()
+            for y in bsc.succ(x):
+                if y in wb or (x, y) in none_edges or y in seen:
+                    continue
+                seen.add(y)
+                work.append(y)
+        bad = [r for r in bsc.return_blocks() if r in seen]
+        res.check(bool(ws) and not bad, "R11.4", "names-every-parse|" + fld, bsc.where(), "%s recomputed on every _build_subcommand of an existing subcommand" % fld,
+                  "_build_subcommand can return the subcommand without (re)computing %s (%s): its names then depend on which calls happened before" % (fld, bad[:1]))
     res.check(bool(bsc.calls_to(r"Command::_build_self$")), "R11.4", "subcommand-built", bsc.where(), "the subcommand is built before use", "_build_subcommand no longer builds the subcommand")
